@@ -227,16 +227,11 @@ def client_gpio(mon, nbits=2):
             chg = chg | (g._mode.storage[i] & (inp[i] != in_d[i]) & srcs[i].trigger)
         b = Signal(name_override="bad_gpio_trigger")
         m.comb += b.eq(bad)
-        # the input seen by the event logic is the pad two cycles earlier (two-flop synchroniser), never anything else
-        p1 = m.reg(nbits, "sh_pad1"); p2 = m.reg(nbits, "sh_pad2")
-        m.sync += [p1.eq(pads), p2.eq(p1)]
-        b2 = Signal(name_override="bad_gpio_in_sync")
-        m.comb += b2.eq(inp != p2)
         w = Signal(name_override="w_change_mode_event")
         m.comb += w.eq(chg)
         wf = Signal(name_override="w_falling_edge_mode_pending")
         m.comb += wf.eq(g._edge.storage[0] & ~g._mode.storage[0] & srcs[0].pending & ~inp[0])
-        return dict(bads=dict(gpio_trigger_follows_mode_and_edge=b, gpio_input_is_synchronised_pad=b2), wit=dict(change_mode_event=w, falling_edge_mode_pending=wf), show=[pads, inp])
+        return dict(bads=dict(gpio_trigger_follows_mode_and_edge=b), wit=dict(change_mode_event=w, falling_edge_mode_pending=wf), show=[pads, inp])
     return dict(mod=g, ev=g.ev, srcs=srcs, kinds=["rising"] * nbits, free=[pads], finish=finish)
 
 
